@@ -269,6 +269,14 @@ func init() {
 			"the critical section that looked it up, and never removed or replaced. NOT decided: what handlers do; equality of results.",
 		Assumptions: []string{"A4: handler and initializer are user callbacks"},
 		Rules: []func(*Ctx){
+			func(c *Ctx) {
+				// the call layer itself: assertions on the handler's input and on the run's step data
+				set := map[*ssa.Function]bool{}
+				for _, f := range c.funcsByKeys("MODEL", "schema.CallableSchema.CallStep", "schema.CallableSchema.CallSignal", "schema.CallableStepSchema.Call", "schema.CallableStepSchema.CallSignal", "schema.CallableSignalSchema.Call") {
+					set[f] = true
+				}
+				c.ruleAssert("R-ASSERT", set)
+			},
 			func(c *Ctx) { c.ruleStepDom("R-DOM") },
 			func(c *Ctx) { c.ruleStepErrors("R-ERRPROV") },
 			func(c *Ctx) { c.ruleStepData("R-STEPDATA") },
